@@ -32,6 +32,7 @@ MIN_COUNTERS = {'on_evaluate_starts': 1}
 _mon = {}
 _counts = {'on_evaluate_starts': 0}
 _per_node = {}
+_observe_nodes = [True]
 _route = ['config']
 
 
@@ -49,6 +50,10 @@ def init(tier):
     m = monitors.EvalMonitor({'on_evaluate': f})
 
     def per_object(name, frame):
+        if not _observe_nodes[0]:
+            # (counting by node identity means holding on to the nodes: with lazily included files the point is that their trees are
+            # NOT kept alive by anything but the evaluation itself)
+            return
         node = frame.f_locals.get('self')
         _per_node[id(node)] = _per_node.get(id(node), 0) + 1
         _per_node.setdefault('keep', []).append(node)
@@ -63,6 +68,8 @@ def finish():
 
 
 def gen_case(rng, tier):
+    if rng.random() < 0.08:
+        return gen_rec(rng)
     n_prod = rng.randrange(1, 6)
     prods = []           # {'key', 'path'(tuple), 'name', 'kind'}
     items = []
@@ -238,7 +245,76 @@ def evaluate(texts):
     return got, log, twice_desc
 
 
+def gen_rec(rng):
+    """several lazily included files (!rec), each with a dynamic node of its own: their trees come into being (and go away) while the
+    evaluation is under way"""
+    k = rng.choice([2, 3, 4, 6, 9, 12])
+    files = {f'part{i}.yaml': f'obj: !call:verif_targets.r{100 + i} {{x: {i}}}\nlabel: "part{i}"\nnum: {i}\nmore: [{i}, "e{i}", {{z: {i}}}]\n' for i in range(k)}
+    items = []
+    for i in range(k):
+        items.append(f'part{i}: !rec part{i}.yaml')
+        if rng.random() < 0.6:
+            items.append(f"use{i}: !eval \"part{i}['obj']\"")
+        if rng.random() < 0.3:
+            items.append(f"again{i}: !eval \"[part{i}['obj'], part{i}['num']]\"")
+    rng.shuffle(items)
+    return {'kind': 'rec', 'k': k, 'files': files, 'texts': ['\n'.join(items) + '\n'], 'route': rng.choice(['config', 'ctx'])}
+
+
+def run_rec(case):
+    import os
+    import shutil
+    import tempfile
+    import verif_targets
+    root = tempfile.mkdtemp(prefix='verif_c10_')
+    cwd0 = os.getcwd()
+    vio = []
+    try:
+        for fn, txt in case['files'].items():
+            with open(os.path.join(root, fn), 'w') as f:
+                f.write(txt)
+        os.chdir(root)
+        _route[0] = case.get('route', 'config')
+        _observe_nodes[0] = False
+        got, log, twice = evaluate(case['texts'])
+    finally:
+        _observe_nodes[0] = True
+        os.chdir(cwd0)
+        shutil.rmtree(root, ignore_errors=True)
+    texts = case['texts']
+    if got[0] == 'err':
+        vio.append({'mech': 'build-fails', 'what': f'{case["k"]} lazily included files: the build {lib.describe(got)}; texts={texts!r}'})
+    else:
+        cfg = got[1]
+        names = [e[0] for e in log]
+        for i in range(case['k']):
+            part = cfg.get(f'part{i}')
+            n = names.count(f'r{100 + i}')
+            if n != 1:
+                vio.append({'mech': 'not-exactly-once', 'what': f'the !call node of part{i}.yaml ran {n} time(s) (log {names}); texts={texts!r}'})
+                break
+            ok = isinstance(part, dict) and isinstance(part.get('obj'), verif_targets.Result) and part['obj'].name == f'r{100 + i}' and part.get('label') == f'part{i}' \
+                and part.get('num') == i and part.get('more') == [i, f'e{i}', {'z': i}]
+            if not ok:
+                vio.append({'mech': 'lazily-included-content-wrong', 'what': f'part{i} evaluated to {util.short(_plain(part), 300)}; texts={texts!r}'})
+                break
+            if f'use{i}' in cfg and cfg[f'use{i}'] is not part['obj']:
+                vio.append({'mech': 'consumers-see-different-objects:rec', 'what': f'use{i} holds {cfg[f"use{i}"]!r}, part{i}.obj holds {part["obj"]!r}; texts={texts!r}'})
+                break
+            if f'again{i}' in cfg and not (cfg[f'again{i}'][0] is part['obj'] and cfg[f'again{i}'][1] == i):
+                vio.append({'mech': 'consumers-see-different-objects:rec', 'what': f'again{i} holds {cfg[f"again{i}"]!r}; texts={texts!r}'})
+                break
+        if twice and not vio:
+            vio.append({'mech': 'node-evaluated-twice', 'what': f'on_evaluate started more than once for {twice}; texts={texts!r}'})
+    res = {'status': 'violation' if vio else 'ok', 'nontrivial': True, 'feats': ['lazily_included_files=%d' % case['k']], 'sig': util.sig(texts), 'evals': 1}
+    if vio:
+        res['violations'] = vio[:2]
+    return res
+
+
 def run(case):
+    if case.get('kind') == 'rec':
+        return run_rec(case)
     texts = case['texts']
     _route[0] = case.get('route', 'config')
     got, log, twice = evaluate(texts)
